@@ -151,8 +151,8 @@ Definition vec_op (pv : option N) (t : ty) (op : vop) (bs : bytes) : bytes * oou
 (* ---------- FlexVec ---------- *)
 
 (* the chain as the iterator sees it: (slot position, payload length) per item, and how it ends *)
-Definition flex_chain (l : intty) (os : N) (data : bytes) : res (list (N * N) * flex_end) :=
-  do r <- flex_fold l os
+Definition flex_chain (l : intty) (os al : N) (data : bytes) : res (list (N * N) * flex_end) :=
+  do r <- flex_fold l os al
             (fun (acc : list (N * N)) pos _ payload => Ok ((pos, blen payload) :: acc))
             (flex_fuel data) [] 0 data 0;
   Ok (rev (fst r), snd r).
@@ -168,10 +168,10 @@ Inductive fop :=
 Definition write_int_at (l : intty) (pos : N) (v : N) (data : bytes) : bytes :=
   take pos data ++ to_bytes (ibe l) (isize l) v ++ drop (pos + isize l) data.
 
-Definition flex_truncate (l : intty) (os : N) (n : N) (data : bytes) : bytes * oout :=
+Definition flex_truncate (l : intty) (os al : N) (n : N) (data : bytes) : bytes * oout :=
   if n =? 0 then (write_int_at l 0 0 data, ODone)
   else
-    match flex_chain l os data with
+    match flex_chain l os al data with
     | Ok (items, _) =>
         match nth_error items (N.to_nat n) with
         | Some (pos, _) => (write_int_at l pos 0 data, ODone)
@@ -189,7 +189,7 @@ Definition flex_op (pv : option N) (t : ty) (a : N) (op : fop) (bs : bytes) : by
       let data := take n bs in
       let tail := drop n bs in
       let back (r : bytes * oout) := (fst r ++ tail, snd r) in
-      match flex_chain l os data with
+      match flex_chain l os al data with
       | Ok (items, fin) =>
           match op with
           | FPush i =>
@@ -230,9 +230,9 @@ Definition flex_op (pv : option N) (t : ty) (a : N) (op : fop) (bs : bytes) : by
               end
           | FPop =>
               let len := N.of_nat (length items) in
-              if len =? 0 then (bs, ORefused) else back (flex_truncate l os (len - 1) data)
-          | FTruncate k => back (flex_truncate l os k data)
-          | FClear => back (flex_truncate l os 0 data)
+              if len =? 0 then (bs, ORefused) else back (flex_truncate l os al (len - 1) data)
+          | FTruncate k => back (flex_truncate l os al k data)
+          | FClear => back (flex_truncate l os al 0 data)
           | FEditVec i vo =>
               match nth_error items (N.to_nat i) with
               | Some (pos, plen) =>
